@@ -42,6 +42,64 @@ def replay_parallel(prop):
         return RP.write_and_run(prop, job.name + "." + ob["name"], hdr, ['"TasmanianAddons.hpp"', '<cmath>', '<atomic>'], REPLAY_PAR, "  main_replay();", lib="sg", timeout=120)
     return rp
 
+REPLAY_FWD = r'''
+/* On the real library: every signature of the loadNeededValues() addon in overwrite mode on a fully loaded grid must call the model once per loaded point and store its values. */
+int main_replay(){
+  using namespace TasGrid;
+  int bad = 0;
+  for (int sig = 0; sig < 4; sig++) {
+    TasmanianSparseGrid g = makeGlobalGrid(2, 1, 2, type_level, rule_clenshawcurtis);
+    loadNeededValues<mode_sequential>([](double const x[], double y[], size_t)->void{ y[0] = x[0] + x[1]; }, g, 1);
+    int n = g.getNumLoaded(); std::atomic<int> calls(0);
+    auto arr = [&](double const x[], double y[], size_t)->void{ calls++; y[0] = 10.0 + x[0] * x[1]; };
+    auto vec = [&](std::vector<double> const &x, std::vector<double> &y, size_t)->void{ calls++; y[0] = 10.0 + x[0] * x[1]; };
+    if (sig == 0) loadNeededValues<mode_parallel, true>(arr, g, 2);
+    if (sig == 1) loadNeededValues<mode_parallel, true>(vec, g, 2);
+    if (sig == 2) loadNeededPoints<mode_parallel, true>(arr, g, 2);
+    if (sig == 3) loadNeededPoints<mode_parallel, true>(vec, g, 2);
+    std::vector<double> p = g.getLoadedPoints(); const double *v = g.getLoadedValues(); int miss = 0;
+    for (int i = 0; i < g.getNumLoaded(); i++) if (std::abs(v[i] - (10.0 + p[2*i] * p[2*i+1])) > 1.E-12) miss++;
+    if (calls != n || miss || g.getNumLoaded() != n) { std::printf("signature %d, overwrite mode: %d model calls for %d loaded points, %d points keep the old values\n", sig, (int) calls, n, miss); bad++; }
+  }
+  __CPROVER_assert(bad == 0, "C18 every signature of loadNeededValues() honours the overwrite mode it was instantiated with");
+  return 0;
+}
+'''
+def forwarding_job(prop):
+    """the convenience overloads of loadNeededValues forward both template arguments (an omitted argument is the default of the primary template)"""
+    HPP = "Addons/tsgLoadNeededValues.hpp"
+    ft = X.strip_comments(X.read_source(HPP))
+    heads = list(re.finditer(r'template<\s*bool\s+parallel_construction\s*(?:=\s*(\w+)\s*)?,\s*bool\s+overwrite_loaded\s*(?:=\s*(\w+)\s*)?>\s*void\s+loadNeeded(?:Values|Points)\s*\(', ft))
+    if len(heads) < 4:
+        raise X.ExtractionBreak("expected the primary loadNeededValues template and its forwarding overloads, found %d" % len(heads))
+    dflt = [heads[0].group(1) or "true", heads[0].group(2) or "false"]
+    sites = []
+    for hm in heads[1:]:
+        k = ft.index("{", X.match_close(ft, hm.end() - 1, "(", ")"))
+        e = X.match_close(ft, k)
+        for cm in re.finditer(r'(?<![\w:.>])loadNeededValues\s*(?:<\s*([^<>]*?)\s*>)?\s*\(', ft[k:e]):
+            args = [a.strip() for a in cm.group(1).split(",")] if cm.group(1) else []
+            args = args + dflt[len(args):]
+            sites.append((ft.count("\n", 0, k + cm.start()) + 1, args[0], args[1]))
+    if len(sites) < len(heads) - 1:
+        raise X.ExtractionBreak("a forwarding overload of loadNeededValues does not call loadNeededValues")
+    src = '#include "tsg_shim.h"\nint tsg_exc;\nenum { mode_sequential = 0, mode_parallel = 1 };\n'
+    for i, (ln, a0, a1) in enumerate(sites):
+        src += '#line %d "%s"\nstatic bool fwd_pc_%d(bool parallel_construction, bool overwrite_loaded){ return (bool)(%s); }\n' % (ln, X.REPO + "/" + HPP, i, a0)
+        src += '#line %d "%s"\nstatic bool fwd_ow_%d(bool parallel_construction, bool overwrite_loaded){ return (bool)(%s); }\n' % (ln, X.REPO + "/" + HPP, i, a1)
+    src += "void h_forwarding(void){ bool pc = nondet_bool(), ow = nondet_bool();\n"
+    for i in range(len(sites)):
+        src += '  __CPROVER_assert(fwd_pc_%d(pc, ow) == pc, "C18 loadNeededValues overload, call %d: the parallel mode of the caller is passed on");\n' % (i, i)
+        src += '  __CPROVER_assert(fwd_ow_%d(pc, ow) == ow, "C18 loadNeededValues overload, call %d: the overwrite mode of the caller is passed on (values go to the loaded points, not to the needed ones)");\n' % (i, i)
+    src += '  __CPROVER_assert(0, "VACUITY-CANARY");\n}\n'
+    def rp(job, ob, vals, wd):
+        hdr = "Replay through the public addon API of the real library.\nproperty %s job %s\nobligation %s: %s\nat %s" % (prop, job.name, ob["name"], ob["description"], ob["location"])
+        return RP.write_and_run(prop, job.name + "." + ob["name"], hdr, ['"TasmanianAddons.hpp"', '<atomic>', '<cmath>'], REPLAY_FWD, "  main_replay();", lib="sg", libs=["-lpthread"], timeout=120)
+    return Job("loadneeded.forwarding", src, "h_forwarding", timeout=60, functions=["%s:%d loadNeededValues<parallel_construction, overwrite_loaded> forwarding call" % (HPP, ln) for ln, _, _ in sites],
+               info={"functions": [], "rules_fired": {"R-expr-selector": 2 * len(sites)}, "drops": ["everything but the template arguments of the forwarding calls"]}, replay=rp,
+               assumed=["only the template arguments of each forwarding call are extracted (expression selector); an omitted argument is the default of the primary template (%s, %s)" % tuple(dflt)],
+               label="loadNeededValues convenience overloads forward the parallel and the overwrite mode")
+
 def jobs(tier, seed, prop):
     R = X.Rules()
     blocks, info = surrogate.emit(R)
@@ -81,4 +139,6 @@ def jobs(tier, seed, prop):
                             "mutual exclusion, wake-ups and the memory model are NOT decided (schedule properties): only the main thread's bookkeeping under every completion order",
                             "CandidateManager::next / complete / operator= act on the counts as in contracts/budget.c"],
                    label="constructCommon budget accounting (parallel mode, main thread): budget, flush of completed jobs, shutdown of every worker"))
+    if prop == "C18":
+        out.append(forwarding_job(prop))
     return out
